@@ -246,3 +246,58 @@
     #[kani::unwind(11)]
     #[kani::stub(crate::error_invalid_data, crate::vk::err_invalid_data)]
     fn c02_mbi_class_9() { mbi_class_contract(9); }
+
+    // ---------------------------------------------------------------- ChecksumCalculator
+    use sha2::Digest as _;
+    fn spec_check_value(c: CheckType, data: &[u8], out: &mut [u8; 32]) -> usize {
+        match c {
+            CheckType::None => 0,
+            CheckType::Crc32 => { let v = CRC32.checksum(data).to_le_bytes(); out[..4].copy_from_slice(&v); 4 }
+            CheckType::Crc64 => { let v = CRC64.checksum(data).to_le_bytes(); out[..8].copy_from_slice(&v); 8 }
+            CheckType::Sha256 => { let mut s = sha2::Sha256::new(); s.update(data); let v = s.finalize(); out.copy_from_slice(&v[..32]); 32 }
+        }
+    }
+    /// C04.check: ChecksumCalculator fed `data` (in two pieces) verifies `expected` ⇔ expected is exactly the Check
+    /// field of `data` (every byte compared, length must match; CheckType::None accepts the empty field).
+    fn checksum_verify(c: CheckType) {
+        let data: [u8; 5] = vk::any();
+        let split: usize = vk::any();
+        vk::assume(split <= 5);
+        let mut calc = ChecksumCalculator::new(c);
+        calc.update(&data[..split]);
+        calc.update(&data[split..]);
+        let mut want = [0u8; 32];
+        let l = spec_check_value(c, &data, &mut want);
+        let exp: [u8; 32] = vk::any();
+        let ok = calc.verify(&exp[..l]);
+        let mut same = true;
+        let mut i = 0;
+        while i < 32 { if i < l && exp[i] != want[i] { same = false; } i += 1; }
+        assert!(ok == same);
+        crate::vcover!(ok);
+        crate::vcover!(!ok);
+    }
+    fn checksum_verify_len(c: CheckType, l: usize) {
+        // wrong field length is never accepted (except None, which ignores the field)
+        let mut calc = ChecksumCalculator::new(c);
+        calc.update(&[1, 2, 3]);
+        let exp: [u8; 40] = vk::any();
+        let ok = calc.verify(&exp[..l]);
+        assert!(!ok);
+    }
+    #[kani::proof]
+    #[kani::unwind(34)]
+    fn c04_checksum_verify_crc32() { checksum_verify(CheckType::Crc32); checksum_verify_len(CheckType::Crc32, 3); checksum_verify_len(CheckType::Crc32, 8); }
+    #[kani::proof]
+    #[kani::unwind(34)]
+    fn c04_checksum_verify_crc64() { checksum_verify(CheckType::Crc64); checksum_verify_len(CheckType::Crc64, 4); checksum_verify_len(CheckType::Crc64, 9); }
+    #[kani::proof]
+    #[kani::unwind(34)]
+    fn c04_checksum_verify_sha256() { checksum_verify(CheckType::Sha256); checksum_verify_len(CheckType::Sha256, 31); checksum_verify_len(CheckType::Sha256, 33); }
+    #[kani::proof]
+    #[kani::unwind(34)]
+    fn c04_checksum_verify_none() {
+        let mut calc = ChecksumCalculator::new(CheckType::None);
+        calc.update(&[1, 2, 3]);
+        assert!(calc.verify(&[]));
+    }
